@@ -2317,7 +2317,45 @@ static int add_mapping_entry(vnaproperty_yaml_t *vymlp, int t_map,
  *   @rootptr:  address of property tree root
  *   @vp_node:  yaml node cast to void pointer
  */
+static int yaml_import_node(vnaproperty_yaml_t *vymlp,
+	vnaproperty_t **rootptr, void *vp_node);
+
+/* yaml_import_frame_t: a node on the path from the root being imported */
+typedef struct yaml_import_frame {
+    const void *yif_node;
+    struct yaml_import_frame *yif_up;
+} yaml_import_frame_t;
+
 int _vnaproperty_yaml_import(vnaproperty_yaml_t *vymlp,
+	vnaproperty_t **rootptr, void *vp_node)
+{
+    yaml_node_t *node = vp_node;
+    yaml_import_frame_t frame;
+    int rv;
+
+    /*
+     * An alias may refer to a node that contains it.  Refuse to
+     * descend into a node we're already inside of.
+     */
+    for (yaml_import_frame_t *yifp = vymlp->vyml_path; yifp != NULL;
+	    yifp = yifp->yif_up) {
+	if (yifp->yif_node == vp_node) {
+	    _vnaproperty_yaml_error(vymlp, VNAERR_SYNTAX,
+		    "%s (line %ld) error: alias refers to a node "
+		    "that contains it",
+		    vymlp->vyml_filename, node->start_mark.line + 1);
+	    return -1;
+	}
+    }
+    frame.yif_node = vp_node;
+    frame.yif_up = vymlp->vyml_path;
+    vymlp->vyml_path = &frame;
+    rv = yaml_import_node(vymlp, rootptr, vp_node);
+    vymlp->vyml_path = frame.yif_up;
+    return rv;
+}
+
+static int yaml_import_node(vnaproperty_yaml_t *vymlp,
 	vnaproperty_t **rootptr, void *vp_node)
 {
     yaml_document_t *document = vymlp->vyml_document;
